@@ -3,6 +3,7 @@
 # Builds the checker against the scratch worktree /tmp/mut with the patch applied (so /repo is not
 # touched) and runs one check; evidence/replays go to /tmp/mutout.
 patch=$1; prop=$2; shift 2
+[ -d /tmp/mut ] || git -C /repo worktree add -q --detach /tmp/mut HEAD || exit 2  # scratch worktree; remove with: git -C /repo worktree remove --force /tmp/mut
 cd /tmp/mut && git checkout -q -- . && git clean -fdq && git apply "$patch" || exit 2
 cd /verif && sed 's|=> /repo|=> /tmp/mut|' go.mod > /tmp/verif_mut.mod && cp go.sum /tmp/verif_mut.sum
 GOFLAGS=-mod=mod go build -modfile=/tmp/verif_mut.mod -tags verif -o /tmp/raftmc_mut ./cmd/raftmc || exit 2
